@@ -169,6 +169,10 @@ pub struct EstCase {
     pub cuts: Vec<(u8, u8, u8)>,
     pub prev: PrevSeq,
     pub upload_ms: Option<i64>,
+    /// sub-millisecond part of the upload time in nanoseconds (0..1_000_000): S3 object times have whole-second
+    /// resolution, but the identifier accepts any DateTime and "upload time plus wait" is exact for all of them
+    #[serde(default)]
+    pub upload_sub_ms_ns: u32,
     pub with_stats: bool,
     pub history: Vec<HistEntry>,
 }
@@ -210,7 +214,7 @@ pub fn check_estimate(c: &EstCase) -> Check {
         PrevSeq::Text(t) => format!("20240804-101007-{}-I", t),
         PrevSeq::Missing => "20240804-101007".to_string(),
     };
-    let upload = c.upload_ms.and_then(DateTime::<Utc>::from_timestamp_millis);
+    let upload = c.upload_ms.and_then(DateTime::<Utc>::from_timestamp_millis).map(|t| t + Duration::nanoseconds((c.upload_sub_ms_ns % 1_000_000) as i64));
     let prev = ChunkIdentifier::new("KDMX".into(), VolumeIndex::new(42), name, upload);
 
     // model of what the estimate must be
@@ -353,7 +357,7 @@ pub fn check_estimate(c: &EstCase) -> Check {
         }
     };
     if let Some(b) = base {
-        let delta = (g - b).num_milliseconds() as f64;
+        let delta = (g - b).num_nanoseconds().map(|n| n as f64 / 1e6).unwrap_or((g - b).num_milliseconds() as f64);
         let sig = if hist.map(|q| !q.is_empty()).unwrap_or(false) { "estimate:history-mean" } else { "estimate:static-default" };
         ensure!(
             delta >= lo_ms && delta <= hi_ms,
@@ -462,7 +466,17 @@ fn est_strategy() -> impl Strategy<Value = EstCase> {
             }),
         ],
     )
-        .prop_map(|(cuts, prev, upload_ms, with_stats, history)| EstCase { cuts, prev, upload_ms, with_stats, history })
+        .prop_map(|(cuts, prev, upload_ms, with_stats, history)| {
+            // derived from the other draws: two thirds of the upload times are whole milliseconds
+            let h = upload_ms.unwrap_or(0) as u64 ^ (history.len() as u64) << 7;
+            let upload_sub_ms_ns = match h % 6 {
+                0 => 1,
+                1 => 999_999,
+                2 => (h.wrapping_mul(0x9E37_79B9_7F4A_7C15) >> 44) as u32 % 1_000_000,
+                _ => 0,
+            };
+            EstCase { cuts, prev, upload_ms, upload_sub_ms_ns, with_stats, history }
+        })
 }
 
 pub fn run(ctx: &Ctx, rep: &mut Report) {
@@ -529,6 +543,7 @@ pub fn run(ctx: &Ctx, rep: &mut Report) {
                 .class(same > 10, "window-overflows")
                 .class(c.history.is_empty(), "no-history")
                 .class(c.upload_ms.is_none(), "wall-clock-base")
+                .class(c.upload_ms.is_some() && c.upload_sub_ms_ns % 1_000_000 != 0, "sub-millisecond-upload-time")
                 .class(!matches!(num, Some(1..=55)), "sequence-outside-domain")
                 .class(num == Some(55), "after-end-chunk")
                 .class(c.history.iter().any(|h| h.attempts > 1), "retries-in-history")
@@ -550,6 +565,7 @@ pub fn run(ctx: &Ctx, rep: &mut Report) {
     rep.require_class("estimate", "after-end-chunk", 50);
     rep.require_class("estimate", "all-zero-durations", 50);
     rep.require_class("estimate", "retried-window-at-top-of-range", 50);
+    rep.require_class("estimate", "sub-millisecond-upload-time", 100);
 }
 
 pub fn replay(sub: &str, case: &Value) -> Check {
